@@ -145,7 +145,7 @@ def run_unit(u):
                             try:
                                 with budget(5):
                                     f = glr[tname].parse(text)
-                                glr_out = ("forest", len(f), tree_sexp(num, f[0]))
+                                glr_out = ("forest", f.solutions, tree_sexp(num, f[0]))
                             except parglare.SyntaxError:
                                 glr_out = ("syntax",)
                             except BudgetExceeded:
